@@ -232,6 +232,10 @@ class Folder:
         self.depth = depth
         self.inline = inline      # fold calls of functions defined in the unit (pure helpers) instead of refusing them
         self._tabs = {}
+        # local variables with static storage: (function, decl id) -> value, kept from one call to the next.  A decoder that hands
+        # the same dict to successive folds sees what the routine remembers between calls.
+        self.statics = {}
+        self._static_ds = []
 
     def truth(self, v):
         if isinstance(v, (Ptr, CPtr)):
@@ -253,6 +257,8 @@ class Folder:
         while n is not None and n.get("k") in CASTS and n.get("c"):
             n = strip(n["c"][0])
         if n is not None and n.get("k") == "DeclRefExpr" and n.get("dk") in ("var", "parm"):
+            return n["d"]
+        if n is not None and n.get("k") == "DeclRefExpr" and n.get("dk") == "gvar" and n.get("d") in self._static_ds:
             return n["d"]
         if n is not None and n.get("k") == "UnaryOperator" and n.get("op") == "*":
             pv = self.ev(n["c"][0])
@@ -555,6 +561,7 @@ class Folder:
                     args = [self.ev(a) for a in n["c"][1:]]
                     sub = Folder(f, calls=self.calls, max_steps=self.max_steps, depth=self.depth + 1, inline=True)
                     sub._tabs = self._tabs
+                    sub.statics = self.statics
                     r = sub.run(args, steps=self.steps)
                     self.steps = sub.steps
                     return r
@@ -789,11 +796,28 @@ class Folder:
         elif k == "DeclStmt":
             for v in kids(s):
                 if v.get("k") == "Var":
+                    if v.get("static") and not (self.types[v["t"]] if v.get("t") is not None else {}).get("arr") \
+                            and "const" not in (self.types[v["t"]] if v.get("t") is not None else {}).get("s", "").split("*")[-1]:
+                        sk = (self.fn.name, v["d"])
+                        if sk not in self.statics:
+                            ty = self.types[v["t"]] if v.get("t") is not None else {}
+                            self.statics[sk] = self.ev(kids(v)[0]) if kids(v) else ({} if ty.get("rec") is not None else 0)
+                        self.env[v["d"]] = self.statics[sk]
+                        self._static_ds.append(v["d"])
+                        continue
                     if kids(v):
                         val = self.ev(kids(v)[0])
                         if isinstance(val, dict):
                             self.env[v["d"]] = dict(val)
-                        elif isinstance(val, list):
+                        elif isinstance(val, list) or (isinstance(val, CPtr) and val.off == 0 and val.buf and isinstance(val.buf[0], list)):
+                            if isinstance(val, CPtr):
+                                val = val.buf
+                            ty = self.types[v["t"]] if v.get("t") is not None else {}
+                            cs = ty.get("c", "")
+                            if val and isinstance(val[0], list) and ty.get("ptr") and cs.count("*") == 1 and "(" not in cs and "[" not in cs:
+                                # a table of rows looked at through a pointer to its cells: rows are contiguous (a read-only view)
+                                while val and isinstance(val[0], list):
+                                    val = [c for row in val for c in row]
                             self.env[v["d"]] = val
                         else:
                             self.env[v["d"]] = _wrap(self.types, v, val) if v.get("t") is not None else val
@@ -982,6 +1006,18 @@ class Folder:
         idx = self.ev(n["c"][1])
         if isinstance(idx, Aff):
             _undecided(idx.sg, lambda t: idx.c + idx.k * t, "table index %r depends on the parameter" % idx)
+        if isinstance(vals, list) and isinstance(idx, int) and not (0 <= idx < len(vals)):
+            # a cell one row further on, reached by running over the end of a row of a table of rows (rows are contiguous)
+            b = strip(n["c"][0])
+            while b is not None and b.get("k") in CASTS and b.get("c"):
+                b = strip(b["c"][0])
+            if b is not None and b.get("k") == "ArraySubscriptExpr":
+                outer = self.table_obj(b["c"][0])
+                i = self.ev(b["c"][1])
+                if isinstance(outer, list) and isinstance(i, int) and outer and all(isinstance(r, list) and len(r) == len(vals) for r in outer):
+                    flat = i * len(vals) + idx
+                    if 0 <= flat < len(outer) * len(vals) and not isinstance(outer[0][0], list):
+                        vals, idx = outer[flat // len(vals)], flat % len(vals)
         if not isinstance(vals, list) or not (0 <= idx < len(vals)):
             raise Abort("index %s outside a table of %s" % (idx, len(vals) if isinstance(vals, list) else "?"))
         v = vals[idx]
@@ -995,6 +1031,7 @@ class Folder:
         """args: values of the parameters in order -> returned value"""
         self.env = {p["d"]: (dict(v) if isinstance(v, dict) else v) for p, v in zip(self.fn.params, args)}
         self.steps = steps
+        self._static_ds = []
         try:
             try:
                 self.st(self.fn.body)
@@ -1002,6 +1039,10 @@ class Folder:
                 self.resume_at(g.args[0])
         except _Return as r:
             return r.v
+        finally:
+            for d in self._static_ds:
+                if d in self.env:
+                    self.statics[(self.fn.name, d)] = self.env[d]
         return None
 
     def resume_at(self, label):
